@@ -110,6 +110,34 @@ def run(ctx):
                         tag='paced-tail-%d-n%d-gap%dms-%s' % (k, n, gap // 1000, 'fin' if fin_lost else 'data'),
                         a=dict(writes=[rng.choice([100, 400, 500])] * n, write_gap_us=gap, shutdown=True),
                         b=dict(writes=[rng.choice([0, 200])] if k % 2 else [], shutdown=True), a2b=dict(rules=rules)))
+    # ---- close orders: an application that has read the end of stream and finished writing Close()s its endpoint (the
+    #      stack forgets the connection: no TIME-WAIT), the other side shuts down later and reads late; one packet of the
+    #      closing exchange is lost.  Includes the replay of fixed finding F26 (final ACK lost -> retransmitted FIN answered by
+    #      a RST -> the late reader must still get data + EOS).
+    k = 0
+    for closer in ('a', 'b'):
+        other = 'b' if closer == 'a' else 'a'
+        for lost in (('ack', 2), ('ack', 1), ('fin', 1), ('data', 1), None):
+            for late in ((300, 1500), (0, 0)) if ctx.thorough() or lost == ('ack', 2) else ((300, 1500),):
+                k += 1
+                sc = dict(v=4 if k % 3 else 6, mtu=1500, sack=True, cc='', deadline_ms=30000, seed=k, flags={},
+                          tag='close-order-%d-%s-closes-lost-%s-late%d' % (k, closer, '%s%d' % lost if lost else 'none', late[1]), a2b=dict(), b2a=dict())
+                sc[closer] = dict(writes=[rng.choice([1, 1000, 3000])], shutdown=True, close=True)
+                sc[other] = dict(writes=[rng.choice([0, 0, 500])] if k % 2 else [], shutdown=True, shut_after_ms=late[0], read_start_ms=late[1])
+                if lost:
+                    # the lost packet travels from the closer to the other side (its final ACK, its FIN, its data) ...
+                    sc['a2b' if closer == 'a' else 'b2a'] = dict(rules=[dict(kind=lost[0], nth=lost[1], act='drop')])
+                    if k % 4 == 0:
+                        # ... or the other way round
+                        sc['b2a' if closer == 'a' else 'a2b'] = dict(rules=[dict(kind=lost[0], nth=lost[1], act='drop')])
+                        sc['a2b' if closer == 'a' else 'b2a'] = dict()
+                scs.append(sc)
+    # both sides close
+    for k2 in range(ctx.pick(2, 8)):
+        scs.append(dict(v=4, mtu=1500, sack=True, cc='', deadline_ms=30000, seed=100 + k2, flags={}, tag='both-close-%d' % k2,
+                        a=dict(writes=[rng.choice([10, 2000])], shutdown=True, close=True),
+                        b=dict(writes=[rng.choice([10, 2000])], shutdown=True, close=True, shut_after_ms=rng.choice([0, 50, 300])),
+                        a2b=dict(loss=0.1, budget=1), b2a=dict(loss=0.1, budget=1)))
     # ---- the replay script of known finding F1: every window-bearing pure ACK of the receiver is lost after the window closed
     scs.append(dict(v=4, mtu=1500, sack=True, cc='', deadline_ms=30000, seed=1, flags={}, tag='f1-replay',
                     a=dict(writes=[20000], shutdown=True), b=dict(writes=[], shutdown=True, rcvbuf=2000, read_start_ms=1500),
